@@ -663,6 +663,11 @@ def build_borealis(sf, case):
     if case.get("via_utils"):
         ga = utils_args(sf, case)
     mut = case.get("mut")
+    if mut and mut.startswith("bs-phase-array"):
+        L_ = len(ga[0])
+        arr_ = {"bs-phase-array-ok": [PI / 2] * L_, "bs-phase-array-const": [0.3] * L_,
+                "bs-phase-array-one": [PI / 2] * (L_ - 1) + [1.0]}[mut]
+        ga = list(ga) + [arr_]
     with prog.context(*ga) as (p, q):
         if mut == "first-rgate":
             ops.Rgate(0.12) | q[n[0]]
@@ -674,6 +679,8 @@ def build_borealis(sf, case):
                 ops.BSgate(p[2 * i + 2], PI / 2) | (q[n[i]], q[n[i + 1]])
             elif mut == "bs-phase" and i == 2:
                 ops.BSgate(p[2 * i + 2], 0.5) | (q[n[i + 1]], q[n[i]])
+            elif mut and mut.startswith("bs-phase-array") and i == 1:
+                ops.BSgate(p[2 * i + 2], p[7]) | (q[n[i + 1]], q[n[i]])     # the fixed phase as a per-time-bin array
             else:
                 ops.BSgate(p[2 * i + 2], PI / 2) | (q[n[i + 1]], q[n[i]])
             off = case["offsets"][i]
@@ -720,7 +727,8 @@ def gen_borealis_case(rng):
     elif u < 0.45:
         k = rng.randrange(3)
         offsets[k] = lp[k] if rng.random() < 0.7 else 0.25
-    mut = rng.choice([None] * 10 + ["no-measure", "first-rgate", "bs-swapped", "bs-phase", "extra-rgate", "homodyne"])
+    mut = rng.choice([None] * 10 + ["no-measure", "first-rgate", "bs-swapped", "bs-phase", "extra-rgate", "homodyne",
+                                    "bs-phase-array-ok", "bs-phase-array-const", "bs-phase-array-one"])
     case = dict(kind="borealis", L=L, loop_phases=lp, args=args, offsets=offsets, mut=mut,
                 via_utils=(offsets == [None, None, None] and rng.random() < 0.3), loss=rng.random() < 0.25)
     if rng.random() < 0.25:     # allowed values that are a union of separate values / ranges; arrays whose extremes are allowed
@@ -834,9 +842,17 @@ def _borealis_oracle(ctx, sf, fx, case, count=True):
         if abs(v - want) > 1e-12 or not hw12.in_ranges(v, gp[f"loop{i}_phase"]):
             ctx.fail("tdm-loop-offset:borealis", f"loop {i} offset gate carries {v}, expected {want} within {gp[f'loop{i}_phase']}", rp)
             return
-    bsphase = [float(par_evaluate(compiled.circuit[p].op.p[1])) for p in (2, 5, 8)]
-    if any(abs(b - PI / 2) > 1e-9 for b in bsphase):
-        ctx.fail("tdm-fixed-parameter:borealis", f"beamsplitter phases {bsphase} differ from the layout value pi/2", rp)
+    bsphase = []
+    for pos_ in (2, 5, 8):
+        v_ = compiled.circuit[pos_].op.p[1]
+        try:
+            bsphase.append(float(par_evaluate(v_)))
+        except Exception:  # noqa: BLE001   a loop variable: all its per-time-bin values count
+            k_ = [str(x) for x in compiled.loop_vars].index(str(v_))
+            bsphase += [float(x) for x in compiled.tdm_params[k_]]
+    if any(abs(b - PI / 2) > 1e-5 for b in bsphase):
+        ctx.fail("tdm-fixed-parameter:borealis", f"accepted Borealis program applies beamsplitter phases {sorted(set(round(b, 6) for b in bsphase))}, the layout fixes pi/2", rp)
+        return
     # (c) phase compensation: compensated = source + own accumulated offset - previous one (mod pi; mod 2 pi if no shift needed)
     prev = np.zeros(L)
     for i in range(3):
@@ -1134,6 +1150,159 @@ def outcome_any(sf, prog, dev, comp):
            for x in c.circuit]
     tp = [[round(float(v), 9) for v in a] for a in c.tdm_params] if hasattr(c, "tdm_params") else None
     return ("ok", key, tp)
+
+
+
+def outcome_inst(sf, prog, dev, comp):
+    """like outcome_any; `comp` may be a Compiler INSTANCE; dev may be None; matrices in the key are rounded"""
+    from strawberryfields.program_utils import CircuitError
+    try:
+        kw = dict(compiler=comp) if comp is not None else {}
+        if dev is not None:
+            kw["device"] = dev
+        c = prog.compile(**kw)
+    except Exception as e:  # noqa: BLE001
+        return ("err", classify_exception(e, CircuitError) or f"{type(e).__name__}: {str(e)[:100]}")
+
+    def pv(v):
+        if isinstance(v, np.ndarray):
+            return "arr" + str(np.round(v, 8).tolist())
+        try:
+            return round(float(v), 9)
+        except Exception:  # noqa: BLE001
+            return str(v)
+    key = [(type(x.op).__name__, tuple(r.ind for r in x.reg), str([pv(v) for v in x.op.p]), bool(getattr(x.op, "dagger", False)),
+            str(getattr(x.op, "select", None)), str(getattr(x.op, "dark_counts", None))) for x in c.circuit]
+    tp = [[round(float(v), 9) for v in a] for a in c.tdm_params] if hasattr(c, "tdm_params") else None
+    return ("ok", key, tp)
+
+
+def gaussian_desc(rng, n):
+    ops_ = []
+    for _ in range(rng.randint(1, 6)):
+        k = rng.choice(["Sgate", "Rgate", "BSgate", "S2gate"] if n >= 2 else ["Sgate", "Rgate"])
+        if k in ("BSgate", "S2gate"):
+            ops_.append(dict(cls=k, regs=rng.sample(range(n), 2), pars=[dy(rng, 0, 1), dy(rng, 0, 2)]))
+        else:
+            ops_.append(dict(cls=k, regs=[rng.randrange(n)], pars=[dy(rng, -1, 1)] + ([0.0] if k == "Sgate" else [])))
+    meas = list(range(n))
+    rng.shuffle(meas)
+    meas = meas[:rng.randint(1, n)]
+    c = rng.randint(1, len(meas))
+    ops_.append(dict(cls="MeasureFock", regs=meas[:c], pars=[]))
+    if meas[c:]:
+        ops_.append(dict(cls="MeasureFock", regs=meas[c:], pars=[]))
+    return dict(n=n, ops=ops_)
+
+
+def instance_pool(ctx, sf, fx, name):
+    """2-4 programs (+ devices) for ONE compiler instance, differing in what the compiler might keep between compiles"""
+    rng, nprng = ctx.rng, ctx.nprng(17)
+    k = rng.randint(2, 4)
+    pool = []
+    if name == "borealis":
+        lp = [rng.choice([0.1, -0.1, 0.3, 1.0, -2.5]) for _ in range(3)]
+        L = rng.choice([10, 20])
+        for j in range(k):
+            c = gen_borealis_case(rng)
+            while c.get("gpo"):
+                c = gen_borealis_case(rng)
+            # same certificate, different programs: offsets left to the compiler / spelled out by the user / mixed; other arrays
+            pats = [[None] * 3, list(lp), [lp[0], None, None], [None, None, lp[2]]]
+            if ctx.extra.setdefault("_inst_flip", 0) % 2:
+                pats = [pats[1], pats[0], pats[3], pats[2]]
+            offs = pats[j % 4]
+            c.update(L=L, loop_phases=list(lp), args=[[min(max(x, -1.4), 1.4) for x in a[:L]] + [0.3] * max(0, L - len(a)) for a in c["args"]],
+                     offsets=offs, mut=None, loss=False, via_utils=False)
+            c["args"][0] = [abs(x) for x in c["args"][0]]
+            for i_ in (2, 4, 6):
+                c["args"][i_] = [min(abs(x), 1.4) for x in c["args"][i_]]
+            pool.append(c)
+        ctx.extra["_inst_flip"] += 1
+    elif name in ("TDM", "TD2"):
+        for j in range(k):
+            c = gen_tdm1_case(rng)
+            c.update(target=name, mut=rng.choice([None, None, None, "bs-swapped", "sq-value"]), sqfix=rng.choice([0.5643, 0.5643, 0.3]))
+            c.pop("gp", None)
+            c["alpha"] = [min(a, 6.0) for a in c["alpha"]]
+            c["phi"] = [x if 0 <= x <= PI else 0.5 for x in c["phi"]]
+            pool.append(c)
+    elif name in ("Xcov", "Xunitary", "Xstrict"):
+        N = rng.choice([2, 3])
+        for j in range(k):
+            c = gen_x_case(rng, nprng)
+            tries = 0
+            while (c["comp"] != name or c["N"] != N or c.get("gp") or c["desc"]["n"] != 2 * N) and tries < 200:
+                c = gen_x_case(rng, nprng); tries += 1
+            if c["comp"] != name or c["N"] != N:
+                continue
+            c["complist"] = rng.choice([[], [name]])
+            pool.append(c)
+    else:   # compilers without a device: gbs, gaussian, gaussian_unitary, gaussian_merge, passive
+        for j in range(k):
+            n = rng.randint(1, 4)
+            d = gaussian_desc(rng, n)
+            if name in ("gaussian_unitary", "passive"):
+                d["ops"] = [o for o in d["ops"] if o["cls"] != "MeasureFock" and (name != "passive" or o["cls"] in ("Rgate", "BSgate"))] or \
+                    [dict(cls="Rgate", regs=[0], pars=[0.5])]
+            pool.append(dict(kind="plain", comp=name, desc=d))
+    return pool
+
+
+def prepare_inst(sf, fx, case):
+    if case["kind"] == "plain":
+        return build_prog(sf, case["desc"]), None, case["comp"]
+    return prepare_any(sf, fx, case)
+
+
+INSTANCE_CLASSES = ["borealis", "borealis", "TDM", "TD2", "Xcov", "Xunitary", "Xstrict", "gbs", "gaussian", "gaussian_unitary", "gaussian_merge", "passive"]
+
+
+def run_instance_sequence(ctx, sf, fx, name, pool, report=True):
+    """ONE compiler instance for the whole sequence; every result must equal that of a fresh instance on an equal, freshly built
+    program (both under a freshly reset class, so only what the INSTANCE remembers can make a difference)"""
+    from strawberryfields.compilers import compiler_db
+    cls = compiler_db[name]
+    inst = cls()
+    hist = []
+    for i, case in enumerate(pool):
+        hist.append(i)
+        cls.reset_circuit()
+        prog, dev, _ = prepare_inst(sf, fx, case)
+        want = outcome_inst(sf, prog, dev, cls())
+        cls.reset_circuit()
+        prog2, dev2, _ = prepare_inst(sf, fx, case)
+        got = outcome_inst(sf, prog2, dev2, inst)
+        cls.reset_circuit()
+        ctx.oracle_cases += 1
+        if got != want:
+            if report:
+                def brief(o):
+                    return o[0] + ("/" + o[1] if o[0] == "err" else "")
+                detail = ""
+                if got[0] == want[0] == "ok" and got[2] and want[2]:
+                    ch = [sum(1 for a, b in zip(x, y) if a != b) for x, y in zip(got[2], want[2])]
+                    detail = f"; changed per-bin values per gate-argument array: {ch}"
+                ctx.fail(f"instance-state:{name}", f"{name}: program {i} of a sequence compiled with ONE compiler instance gives {brief(got)}, a fresh instance gives "
+                         f"{brief(want)}{detail} (sequence: {[ {k_: v for k_, v in c.items() if k_ in ('offsets', 'loop_phases', 'mut', 'N', 'comp', 'target')} for c in pool[:i + 1]]})",
+                         dict(kind="instance", name=name, pool=pool[:i + 1]))
+            return True
+    return False
+
+
+def instance_oracle(ctx, sf, fx):
+    rng = ctx.rng
+    for rep in range(ctx.n(1, 6)):
+        for name in INSTANCE_CLASSES:
+            try:
+                pool = instance_pool(ctx, sf, fx, name)
+                ctx.count(f"instance:{name}", None, True)
+                if len(pool) >= 2:
+                    run_instance_sequence(ctx, sf, fx, name, pool)
+            except Exception as e:  # noqa: BLE001
+                ctx.fail(f"instance-oracle-crash:{name}:{type(e).__name__}", f"{name}: {type(e).__name__} {str(e)[:150]}", dict(kind="none"))
+    ctx.extra.pop("_inst_flip", None)
+    hard_reset(sf)
 
 
 def history_oracle(ctx, sf, fx):
@@ -2285,6 +2454,7 @@ def corr_extra(ctx, sf, fx):
             u = rng.random()
             return rng.choice([0.5, 0.0, 0.25, 0.500004, 0.50002]) if u < 0.8 else "x"
         la, pa = [larg(), larg()], [parg(), parg()]
+        enc = lambda a: ([Fraction(a).limit_denominator(10 ** 7).numerator, Fraction(a).limit_denominator(10 ** 7).denominator] if not isinstance(a, str) else a)
         txt = lambda a: ("{" + a[4:] + "}") if isinstance(a, str) and a.startswith("sym:") else ("2*{r0}" if a == "2*r0" else repr(a))
         layout = f"name t\nversion 1.0\n\nSgate({txt(la[0])}, {txt(la[1])}) | 0\n"
         prog = sf.Program(1)
@@ -2306,9 +2476,26 @@ def corr_extra(ctx, sf, fx):
         if "x" not in pa:
             bbp = blackbird.loads("name t\nversion 1.0\n\nSgate(%r, %r) | 0\n" % (pa[0], pa[1]))
             impl["fixed"] = bool(pu._fixed_layout_values_match(blackbird.loads(layout), bbp))
+        if rng.random() < 0.4:
+            # the program's argument is a per-time-bin array variable (TDM program through to_blackbird)
+            import strawberryfields.io as sio_
+            tb = rng.randint(1, 5)
+            base_ = rng.choice([0.5, 0.25])
+            arr_ = [base_ + rng.choice([0.0, 0.0, 0.0, 4e-6, 2e-5, 0.25]) for _ in range(tb)]
+            la = [rng.choice(["sym:r0", 0.5, 0.25]), rng.choice([0.5, 0.25, "sym:r1"])]
+            tprog = sf.TDMProgram(N=1)
+            with tprog.context([0.1] * tb, arr_) as (p_, q_):
+                ops.Sgate(p_[0], p_[1]) | q_[0]
+                ops.MeasureHomodyne(0.0) | q_[0]
+            layout2 = f"name t\nversion 1.0\n\nSgate({txt(la[0])}, {txt(la[1])}) | 0\nMeasureHomodyne(0.0) | 0\n"
+            impl = dict(fixed=bool(pu._fixed_layout_values_match(blackbird.loads(layout2), sio_.to_blackbird(tprog))))
+            case = dict(layout=la, arr=arr_)
+            ctx.count("corr:param_rules:array", case, impl["fixed"] is False)
+            reqs.append(dict(op="hw.paramRules", layout=[enc(a) for a in la], prog=[dict(arr=[enc(0.1)] * tb), dict(arr=[enc(x) for x in arr_])]))
+            pend.append(("parameter rules", case, impl))
+            continue
         case = dict(layout=la, prog=pa)
         ctx.count("corr:param_rules", case, clash or impl.get("fixed") is False)
-        enc = lambda a: ([Fraction(a).limit_denominator(10 ** 7).numerator, Fraction(a).limit_denominator(10 ** 7).denominator] if not isinstance(a, str) else a)
         reqs.append(dict(op="hw.paramRules", layout=[enc(a) for a in la], prog=[enc(a) for a in pa]))
         pend.append(("parameter rules", case, impl))
     return reqs, pend
@@ -2426,6 +2613,8 @@ def run(ctx, sf):
             x_oracle(ctx, sf, case)
         elif case["kind"] == "borealis":
             borealis_oracle(ctx, sf, fx, case)
+        elif case["kind"] == "instance":
+            run_instance_sequence(ctx, sf, fx, case["name"], case["pool"])
         else:
             tdm1_oracle(ctx, sf, case)
     # ---- correspondence
@@ -2439,7 +2628,7 @@ def run(ctx, sf):
     # ---- oracle
     rng = ctx.rng
     nprng = ctx.nprng(5)
-    for _ in range(ctx.n(270, 4000)):
+    for _ in range(ctx.n(230, 4000)):
         x_oracle(ctx, sf, gen_x_case(rng, nprng, ctx.tier == "thorough"))
     # every non-implementable ingredient on every position class and stage, for every compiler
     for N_ in ((2, 3) if ctx.tier == "quick" else (1, 2, 3, 4)):
@@ -2451,6 +2640,7 @@ def run(ctx, sf):
     for _ in range(ctx.n(40, 400)):
         tdm1_oracle(ctx, sf, gen_tdm1_case(rng))
     history_oracle(ctx, sf, fx)
+    instance_oracle(ctx, sf, fx)
     helpers_oracle(ctx, sf, fx)
 
 
@@ -2571,6 +2761,8 @@ def replay(ctx, rp):
         return bool(np.max(np.abs(np.diag(nd) @ W - V)) > 1e-8)
     elif rp["kind"] == "fn":
         fn_check(ctx, sf, rp["fn"], rp["case"], fixture_ns(sf))
+    elif rp["kind"] == "instance":
+        return run_instance_sequence(ctx, sf, fixture_ns(sf), rp["name"], rp["pool"], report=True)
     elif rp["kind"] == "history":
         replay_history(ctx, sf, fixture_ns(sf), rp)
     elif rp["kind"] == "helpers":
